@@ -524,8 +524,8 @@ def _custom_case(kind, fmtkind, mx, bw, ops, deltas):
             if op in ("adv1", "adv3", "set_mid") and new and s_ != m_:
                 if draws[:n_before] and clock["t"] - draws[n_before - 1][1] < MIN_INTERVAL - 1e-9:
                     return False
-            if op in ("msg_long", "msg_short") and (new or len(blank) != b_before):
-                return False             # changing the message alone draws nothing
+            if op in ("msg_long", "msg_short") and len(blank) != b_before:
+                return False             # changing the message never blanks the bar (whether it redraws at once is not the statement's business: a frame it draws is checked like any other)
             for exp, t, o, message in new:
                 if [l.rstrip() for l in message.split("\n")] != [l.rstrip() for l in exp]:
                     return False         # the frame is the truthful one: current message, step, maximum, bar width, percentage
